@@ -281,7 +281,7 @@ func Run(c *core.Ctx) error {
 	size := 20 // originals per pool (the pool holds twice as many members)
 
 	if c.WantGen("types") {
-		for cas := 0; cas < c.Pick(2, 12); cas++ {
+		for cas := 0; cas < c.Pick(4, 20); cas++ {
 			if !c.Want("types", cas) {
 				continue
 			}
@@ -309,7 +309,7 @@ func Run(c *core.Ctx) error {
 	}
 
 	if c.WantGen("family") {
-		for cas := 0; cas < c.Pick(14, 300); cas++ {
+		for cas := 0; cas < c.Pick(50, 1200); cas++ {
 			if !c.Want("family", cas) {
 				continue
 			}
@@ -328,7 +328,7 @@ func Run(c *core.Ctx) error {
 
 	if c.WantGen("enum") {
 		all := valgen.Enumeration(3)
-		for cas := 0; cas < c.Pick(6, 150); cas++ {
+		for cas := 0; cas < c.Pick(25, 500); cas++ {
 			if !c.Want("enum", cas) {
 				continue
 			}
@@ -345,7 +345,7 @@ func Run(c *core.Ctx) error {
 	}
 
 	if c.WantGen("rand") {
-		for cas := 0; cas < c.Pick(8, 250); cas++ {
+		for cas := 0; cas < c.Pick(30, 600); cas++ {
 			if !c.Want("rand", cas) {
 				continue
 			}
